@@ -17,7 +17,7 @@ RULE = ("a real RF24Mesh master and 1..12 RF24MeshNoMaster/RF24Mesh joiners with
         "no-exception, termination and valid-or-None. The C16 table invariant is evaluated on the "
         "master after every update(). Non-trivial: >=1 lease granted or refused; distinct = "
         "(joiner count, relay use, profile class, medium, script shape).")
-RULE += (" Later rounds added: deep narrow trees joined through level-2/3 relays, timeouts sized to the joiner count, a quiet network before every turn, origin stamp of frames the master originates, injected late duplicate requests, master-expired leases, send to the own ID, the master's trivial answers, an orphaned child, concurrent lookups (an answer is the mapping or -1), block_less_callback.")
+RULE += (" Later rounds added: deep narrow trees joined through level-2/3 relays, timeouts sized to the joiner count, a quiet network before every turn, origin stamp of frames the master originates, injected late duplicate requests, master-expired leases, send to the own ID, the master's trivial answers, an orphaned child, concurrent lookups (an answer is the mapping or -1), block_less_callback. Directed ID sets whose numbers are also addresses other nodes are given; a foreign poll heard while re-joining; two leaves that swap addresses (release, release, re-join in the swapping order) with a third node sending to both before and after.")
 REQUIRED = {"join_result": 60, "address_distinct_and_recorded": 25, "lookup_codes": 150,
             "mesh_send_arrives": 30, "release_and_rejoin": 15, "check_connection": 60,
             "master_table_invariant": 2000}
@@ -25,6 +25,11 @@ BUDGET = {"quick": 600, "thorough": 2400}
 
 
 def gen_cases(ctx):
+    yield from gen_directed(ctx)
+    yield from _gen_cases(ctx)
+
+
+def _gen_cases(ctx):
     rng = ctx.sub_rng("c17")
     n = 40 if ctx.tier == "quick" else 4000
     for i in range(n):
@@ -45,6 +50,7 @@ def gen_cases(ctx):
             for k in [0] + ids:
                 profs[str(k)] = N.rand_profile(rng, base=base)
         yield {"deep": deep, "dup": (i % 3 == 1) and not deep and not hostile,
+               "swap": i % 4 == 2 and not deep and not hostile and not ((i % 2 == 0) and nj >= 6) and nj >= 3,
                "orphan": (i % 2 == 0) and not deep and not hostile and nj >= 6,
                "conc": not deep and not hostile and nj >= 3,
                "ids": ids, "offsets": {str(k): rng.choice([0, 0, rng.randrange(0, 2000)]) for k in ids},
@@ -54,6 +60,23 @@ def gen_cases(ctx):
                # the timeout has to leave room for the protocol's own pace (55 ms poll + 225 ms per
                # refusing contact, one level per attempt): 12 concurrent joiners need 2.4-4.1 s
                "timeout": 15.0 if deep or nj >= 9 else (7.5 if nj >= 5 else rng.choice([3.0, 7.5])), "unknown_id": rng.choice([k for k in range(1, 256) if k not in ids])}
+
+
+def gen_directed(ctx):
+    """IDs that are numerically equal to addresses other nodes will be given (ID 3 joins first, a
+    later joiner gets address 0o3, ...), joining one after the other, with and without children
+    allowed - every lookup clause then meets numbers that are both an ID and an address"""
+    rng = ctx.sub_rng("c17d")
+    for k, all_ids in enumerate(([3, 70, 90, 120], [2, 1, 200, 201], [5, 4, 3, 2, 1], [9, 10, 77, 78, 79, 80, 81],
+                             [4, 100, 3, 101, 2], [1, 9, 17, 25, 33, 41])):
+        for nc in (True, False):
+            ids = list(all_ids[:5] if nc else all_ids)  # (the master has five slots; nobody else takes children)
+            profs = {str(x): N.rand_profile(rng, base=40000) for x in [0] + ids}
+            yield {"deep": False, "dup": False, "orphan": False, "conc": len(ids) >= 3, "ids": ids,
+                   "offsets": {str(x): 400 * j for j, x in enumerate(ids)},
+                   "no_children": list(ids) if nc else [], "cls": {str(x): ["meshnm", "mesh"][(x + k) % 2] for x in ids},
+                   "profiles": profs, "hostile": False, "seed": rng.getrandbits(30), "timeout": 7.5,
+                   "unknown_id": 250, "swap": not nc}
 
 
 def run_case(ctx, case):
@@ -127,8 +150,9 @@ def _run(ctx, case, net):
     rel = [k for i, k in enumerate(order) if i % 3 == 0][:3]
     # dynamic barriers: phase 2 starts when every joiner has returned from renew_address();
     # inside phases 2 and 3 the nodes act strictly one at a time ("turn")
-    st = {"joined": 0, "turn2": 0, "turn3": 0, "done": 0, "conc_done": 0}
-    end_cap = t0 + int((2.0 + T + 2.0) * 1e9) + len(order) * 4000 * W.MS + len(rel) * int((2 * T + 8.0) * 1e9) + int((2 * T + 12.0) * 1e9)
+    st = {"joined": 0, "turn2": 0, "turn3": 0, "done": 0, "conc_done": 0, "p5_arrived": 0, "p5_roles": None, "p5": -1}
+    end_cap = t0 + int((2.0 + T + 2.0) * 1e9) + len(order) * 4000 * W.MS + len(rel) * int((2 * T + 8.0) * 1e9) + int((2 * T + 12.0) * 1e9) \
+        + (int((2 * T + 14.0) * 1e9) if case.get("swap") else 0)
     applog = {k: joiners[k].applog for k in ids}
     world.horizon = end_cap + 10 * 1000 * W.MS
 
@@ -349,6 +373,48 @@ def _run(ctx, case, net):
                 r["phase3"] = "no return"
                 st["p4_stage"] = 3
             pump_while(nn, lambda: st["p4_stage"] < 3)
+        if case.get("swap"):
+            # ---- phase 5: two leaf nodes below the master give their addresses up and come back in
+            # the order that makes them SWAP addresses (the master hands out the highest free child
+            # number first); a third node that sent to one of them before sends to both again -
+            # "a message sent to its node ID arrives at that node", wherever the node lives now
+            st["p5_arrived"] += 1
+            if st["p5_arrived"] == len(ids):
+                tab = {a: b for a, b in master.obj.dhcp_dict.items() if a in joiners and joiners[a].obj.node_address == b}
+                leaves = sorted((b, a) for a, b in tab.items() if net_ref.level(b) == 1
+                                and not any(net_ref.is_descendant(v, b) for v in tab.values() if v != b))
+                rest = [a for a in tab if a not in [x[1] for x in leaves[-2:]]]
+                st["p5_roles"] = (rest[0], leaves[-1][1], leaves[-2][1]) if len(leaves) >= 2 and rest else ()
+                st["p5"] = 0 if st["p5_roles"] else 6
+            pump_while(nn, lambda: st["p5_roles"] is None)
+            roles = st["p5_roles"]
+            if roles and k in roles:
+                s_, a_, b_ = roles
+                for stepno in {s_: [0, 5], a_: [1, 4], b_: [2, 3]}[k]:
+                    pump_while(nn, lambda: st["p5"] != stepno)
+                    pump_until(nn, wn.t + 10 * W.MS)
+                    wait_quiet(nn)
+                    try:
+                        if stepno == 0:
+                            p1 = bytes([k, a_]) + b"before-the-swap"
+                            r.setdefault("sends", []).append((a_, p1, net.call(nn, "send", o.send, a_, "M", p1, deadline_ms=3000)))
+                        elif stepno in (1, 2):
+                            r["p5_old"] = o.node_address
+                            r["p5_release"] = net.call(nn, "release_address", o.release_address, deadline_ms=3000)
+                        elif stepno in (3, 4):
+                            r["p5_rejoin"] = net.call(nn, "renew_address", o.renew_address, T, deadline_ms=(T + 2.5) * 1000)
+                            if r["p5_rejoin"] is not None and r["p5_rejoin"] != r["p5_old"]:
+                                ctx.count("nodes_back_on_another_address")
+                        else:
+                            for tg_ in (a_, b_):
+                                p2 = bytes([k, tg_]) + b"after-the-swap"
+                                r["sends"].append((tg_, p2, net.call(nn, "send", o.send, tg_, "M", p2, deadline_ms=3000)))
+                                pump_until(nn, wn.t + 5 * W.MS)
+                    except W.VirtualDeadline:
+                        r["phase3"] = "no return"
+                    st["p5"] += 1
+            pump_while(nn, lambda: st["p5"] < 6)
+            pump_until(nn, wn.t + 20 * W.MS)
         st["done"] += 1
         pump_while(nn, lambda: not world.stopping)
 
